@@ -24,16 +24,16 @@ H = {
     "k_band_quantile_argument_all_p": ("quick", 300, 1800, "for EVERY f64 p in (0,1): the quantile is looked up once at exactly ((p+1)/2, dof) and the entry is t*sigma", None),
     "k_band_quantile_argument_all_p_f32": ("quick", 300, 1800, "f32, for EVERY p in (0,1): quantile level formed in f64 as ((p as f64)+1)/2", None),
     "k_band_dataflow_f32": ("quick", 300, 600, "same for f32: product formed in f64 and rounded once", None),
-    "k_band_rejects_bad_probability": ("quick", 300, 600, "EVERY f64 p outside (0,1) (incl. NaN, inf) panics: code after the call unreachable", None),
+    "k_band_rejects_bad_probability": ("quick", 300, 600, "EVERY f64 p outside (0,1) (incl. NaN, inf) panics: code after the call unreachable", [("bandpanic", {})]),
     "k_band_accepts_open_interval": ("quick", 300, 600, "every f64 p inside (0,1) is accepted without panic", None),
-    "k_band_monotone_in_t_f32": ("thorough", 0, 3000, "t1<=t2, sigma>=0 => t1*sigma <= t2*sigma in IEEE f32 (radius non-decreasing in the quantile)", None),
+    "k_band_monotone_in_t_f32": ("thorough", 0, 1200, "t1<=t2, sigma>=0 => t1*sigma <= t2*sigma in IEEE f32 (radius non-decreasing in the quantile)", None),
     "k_extract_concat_u32": ("quick", 300, 600, "statistics::extract_range returns [start,end) in order; concat_colwise pastes columns", None),
     "k_fit_err_on_absent_cache": ("quick", 300, 900, "real fit -> real LM on a problem without cache (model failed to evaluate): Err(User) carrying the unchanged problem", None),
-    "k_fit_ok_on_zero_residuals": ("thorough", 0, 3000, "real fit -> real LM: zero residuals => Ok(ResidualsZero) with the coefficients", None),
-    "k_fit_maps_termination": ("thorough", 900, 3000, "real fit -> real LM: no cache => Err(User) carrying the problem; zero residuals => Ok(ResidualsZero); Ok <=> was_successful", None),
-    "k_fit_err_on_failing_derivative": ("thorough", 900, 2400, "real fit -> real LM: failing derivative => None Jacobian => Err(User); residuals still those of the reported parameters", None),
+    "k_fit_ok_on_zero_residuals": ("thorough", 0, 1200, "real fit -> real LM: zero residuals => Ok(ResidualsZero) with the coefficients", None),
+    "k_fit_maps_termination": ("thorough", 900, 1200, "real fit -> real LM: no cache => Err(User) carrying the problem; zero residuals => Ok(ResidualsZero); Ok <=> was_successful", None),
+    "k_fit_err_on_failing_derivative": ("thorough", 900, 1200, "real fit -> real LM: failing derivative => None Jacobian => Err(User); residuals still those of the reported parameters", None),
     "k_set_params_fault_logic": ("quick", 420, 1500, "set_params from a filled cache with a rejecting model and/or failing eval: cache dropped, nothing exposed, SVD not even computed, params() = model's",
-                                 [("core", dict(n=3, m=2, s=1, p=1, w="diag", hist=2))]),
+                                 [("core", dict(n=3, m=2, s=1, p=1, w="diag", hist=2)), ("core", dict(n=3, m=2, s=1, p=1, w="diag", hist=3))]),
     "k_update_fills_cache": ("thorough", 900, 2400, "successful update from an empty cache (concrete SVD contract): coefficients/residuals of the new state", None),
     "k_into_sequential_preserves_state": ("quick", 300, 900, "into_sequential moves Y_w, model, epsilon (bit pattern), weights, cache unchanged", None),
     "k_nonfinite_never_reaches_svd": ("quick", 600, 2400, "for ALL f64 bit patterns of a 2x2 basis matrix and of the weights: the matrix handed to the SVD is finite (SVD precondition), at build",
@@ -108,11 +108,15 @@ def run(prop, tier, seed, only=None):
             res["nontrivial"] += 1
             if len(res["samples"]) < 4:
                 res["samples"].append({"harness": n, "decides": H[n][3], "verdict": r["status"], "cbmc_checks": r["checks"], "sat_instance": r.get("sat_size"), "seconds": round(r["secs"], 1)})
-        elif r["status"] in ("success", "success-modulo-nan") and bad_cover:
+        elif r["status"] in ("success", "success-modulo-nan") and bad_cover and not any(c.startswith("MUST-NOT") and r["covers"][c] == "SATISFIED" for c in bad_cover):
             res["tool_errors"].append(f"{n}: vacuity witness not as expected: {bad_cover} {r['covers']}")
-        elif r["status"] == "failed":
-            rec = {"property": prop, "engine": "K", "harness": n, "decides": H[n][3], "failed_checks": [list(f) for f in r["failed"][:8]],
-                   "obligation": n, "detail": "; ".join(f"{d} @ {l}" for d, l in r["failed"][:3]), "role": f"kani:{n}"}
+        elif r["status"] == "failed" or (r["status"] in ("success", "success-modulo-nan") and bad_cover):
+            # a MUST-NOT cover that the solver satisfies is a counterexample like a failed assertion (e.g. "returned normally
+            # for a probability outside (0,1)")
+            hit = [(c, "cover satisfied") for c in bad_cover if c.startswith("MUST-NOT") and r["covers"].get(c) == "SATISFIED"]
+            failed = list(r.get("failed", [])) + hit
+            rec = {"property": prop, "engine": "K", "harness": n, "decides": H[n][3], "failed_checks": [list(f) for f in failed[:8]],
+                   "obligation": n, "detail": "; ".join(f"{d} @ {l}" for d, l in failed[:3]), "role": f"kani:{n}"}
             native = H[n][4]
             confirmed = None
             if native:
@@ -123,6 +127,8 @@ def run(prop, tier, seed, only=None):
                         d = h.run("f64", sc, cfg, profile=profile, timeout=20)
                         res["traces_validated"] += 1
                         bad = [("crash/hang", d.get("log", "")[-200:])] if d.get("crash") else [f for f in d["out"]["facts"] if not f[1]]
+                        if not bad and not d.get("crash"):
+                            bad = [b for b in engine_r.numeric_failures(d, [prop]) if b[2] != "fact"]
                         if bad:
                             confirmed = {"scenario": sc, "cfg": cfg, "profile": profile, "native_failure": [str(b)[:300] for b in bad[:3]]}
                             break
@@ -176,6 +182,8 @@ def native_grid(prop, tier, seed):
         cases += [("fitmap", {}), ("fwsmap", {})]
     if prop == "C12":
         cases += [("fwsmap", {}), ("statsfit", {})]
+    if prop == "C14":
+        cases += [("bandpanic", {})]
     if prop == "C18":
         for have_y in (0, 1):
             for x in range(0, 4):
